@@ -42,8 +42,9 @@ ASSUMPTIONS = [
     "level semantics are the documented ones: level n looks n levels of keys deep and treats deeper "
     "dictionaries as atomic values; level 0 compares whole dictionaries; negative is unlimited",
     "update_nested with an 'other' whose key chain other[key][key]... ends in a non-dictionary has no "
-    "documented result: the previous value reachable, or LenaValueError/LenaTypeError with both "
-    "arguments untouched, are both accepted; any other exception is reported",
+    "documented result (there is no dictionary to put the previous value into without dropping "
+    "other's scalar): any exception is accepted there, a normal return must still keep the previous "
+    "value reachable",
     "arguments are pairwise unshared (no aliasing between d1 and d2 before the call)",
 ]
 NONTRIVIAL_FLOOR = {"quick": 200000, "thorough": 2000000}
@@ -359,8 +360,9 @@ def check_update_nested(res, key, p1, p2):
     if undefined:
         res.count("update_nested_other_chain_ends_in_nondict")
     if err is not None:
-        if undefined and isinstance(err, (lena.core.LenaValueError, lena.core.LenaTypeError)) \
-                and R.tfreeze(d) == R.tfreeze(p1) and R.tfreeze(other) == R.tfreeze(p2):
+        if undefined:
+            # outside the documented domain (rule R1/R3: C07 names no exception types): the call cannot
+            # keep both other's scalar and the previous value, any exception is accepted
             return
         res.violation(case, "raised " + _exc_name(err), "previous d[key] reachable under the new d[key]",
                       {"law": "update_nested", "raised": _exc_name(err),
